@@ -361,13 +361,27 @@ def desugar_match(node: 'ast.Match'):
     (statements; the first one binds the subject when it is not a plain name). None when a pattern is outside that fragment."""
     pre = []
     subj = node.subject
-    if not isinstance(subj, ast.Name):
+    if not isinstance(subj, (ast.Name, ast.Tuple)):
         tmp = ast.Name(id='__match_subject__', ctx=ast.Store())
         pre.append(ast.copy_location(ast.Assign(targets=[tmp], value=subj, lineno=node.lineno), node))
         subj = ast.Name(id='__match_subject__', ctx=ast.Load())
 
-    def test_of(pat):
+    def test_of(pat, subj=subj):
         """(test expression or True for irrefutable, captured name or None)"""
+        if isinstance(pat, ast.MatchSequence) and isinstance(subj, ast.Tuple) and len(pat.patterns) == len(subj.elts) \
+                and not any(isinstance(p_, ast.MatchStar) for p_ in pat.patterns) \
+                and all(isinstance(e_, (ast.Name, ast.Constant, ast.Attribute)) for e_ in subj.elts):
+            # a tuple display matched against a sequence pattern of the same length: element by element
+            tests = []
+            for p_, e_ in zip(pat.patterns, subj.elts):
+                t_, nm_ = test_of(p_, e_)
+                if t_ is None or nm_ is not None:
+                    return None, None
+                if t_ is not True:
+                    tests.append(t_)
+            if not tests:
+                return True, None
+            return (tests[0] if len(tests) == 1 else ast.BoolOp(op=ast.And(), values=tests)), None
         if isinstance(pat, ast.MatchValue):
             return ast.Compare(left=subj, ops=[ast.Eq()], comparators=[pat.value]), None
         if isinstance(pat, ast.MatchSingleton):
@@ -375,10 +389,10 @@ def desugar_match(node: 'ast.Match'):
         if isinstance(pat, ast.MatchAs) and pat.pattern is None:
             return True, pat.name
         if isinstance(pat, ast.MatchAs):
-            t, nm = test_of(pat.pattern)
+            t, nm = test_of(pat.pattern, subj)
             return (None, None) if (t is None or nm is not None) else (t, pat.name)
         if isinstance(pat, ast.MatchOr):
-            ts = [test_of(p_) for p_ in pat.patterns]
+            ts = [test_of(p_, subj) for p_ in pat.patterns]
             if any(t is None or nm is not None for t, nm in ts):
                 return None, None
             if any(t is True for t, _ in ts):
